@@ -50,7 +50,7 @@ def record_violation(prop, rec):
         if d.get("err", "").startswith("go/format"):
             return "moq rejects its own output: " + d["err"][:300]
         return checks.get("C01", "")
-    if prop in ("C02", "C08", "C09", "C10", "C11", "C12", "C13", "C14", "C16", "C17", "C20", "C04"):
+    if prop in ("C02", "C08", "C09", "C10", "C11", "C12", "C13", "C14", "C15", "C16", "C17", "C20", "C04"):
         return checks.get(prop, "")
     return ""
 
@@ -187,11 +187,17 @@ def main(argv):
         asserted = 0
         for rec in recs:
             # C17 reads the corr stage for its writer oracle only: what the text says is not its business
-            dis = "" if prop == "C17" else record_disagreement(prop, rec)
+            dis = "" if prop in ("C17", "C15") else record_disagreement(prop, rec)
             if dis:
                 disagreements.append((rec, dis))
             v = record_violation(prop, rec)
             expect = (rec.get("expect") or {}).get(prop)
+            if rec.get("corpus") and rec.get("fast"):
+                # the corpus is run through the fast harness for the oracle only that stage has
+                if prop != "C15":
+                    continue
+                if not expect and not corr.asserted(rec, v or ""):
+                    continue
             if rec.get("corpus"):
                 asserted += 1
                 if expect:
@@ -203,9 +209,9 @@ def main(argv):
                                            write_replay(prop, tier, seed, rec, res, v), True))
                 elif v:
                     violations.append((v, write_replay(prop, tier, seed, rec, res, v), True))
-            elif corr.wf(rec) or prop == "C17":
+            elif corr.wf(rec) or prop == "C17" or (prop == "C19" and corr.model_says_terminates(rec)):
                 asserted += 1
-                if v:
+                if v and (prop in ("C17", "C19") or corr.asserted(rec, v)):
                     violations.append((v, write_replay(prop, tier, seed, rec, res, v), True))
             if len(samples) < 3 and corr.wf(rec) and not rec.get("corpus"):
                 samples.append({"moq": job_cmdline(rec["job"]), "wf": True,
